@@ -55,7 +55,12 @@ func TestVerif_C05(t *testing.T) {
 
 	steps := run.N(60, 150)
 	one := func(label string, i int, rng *verifkit.Rand, p E1Profile) {
-		h := e1GenHistory(rng, p)
+		var h *E1History
+		if label == "stalled" {
+			h = e1GenStalledHistory(rng, true)
+		} else {
+			h = e1GenHistory(rng, p)
+		}
 		planOf := map[string]*e1TracePlan{}
 		for _, pl := range h.Plans {
 			planOf[pl.ID] = pl
@@ -232,6 +237,10 @@ func TestVerif_C05(t *testing.T) {
 			}
 			run.Count("dry_run_toggles", int64(toggles))
 			run.Count("late_spans_forwarded_dry_of_traces_decided_while_off", int64(lateAcrossSwitch))
+		} else if label == "stalled" {
+			if wouldDrop > 0 && wouldKeep > 0 {
+				run.Nontrivial(fmt.Sprintf("stalled %s late%d", sig, min(lateOnDropped, 3)))
+			}
 		} else if lateOnDropped > 0 && wouldKeep > 0 {
 			run.Nontrivial(fmt.Sprintf("%s p%v s%v", sig, p.PredictableOnly, p.StressSpans))
 		}
@@ -255,5 +264,10 @@ func TestVerif_C05(t *testing.T) {
 	// which the span was FORWARDED.
 	run.Cases("dry-run-toggled", run.N(80, 800), func(i int, rng *verifkit.Rand) {
 		one("toggled", i, rng, E1Profile{DryRun: rng.Chance(0.4), ToggleDryRun: true, MaxSteps: steps, PredictableOnly: rng.Chance(0.67)})
+	})
+	// would-be-kept and would-be-dropped traces are decided while the outgoing queue (100 000 slots) is completely
+	// full and the upstream takes nothing; under dry run every one of their spans must still come out, marked
+	run.Cases("stalled-upstream", run.N(4, 40), func(i int, rng *verifkit.Rand) {
+		one("stalled", i, rng, E1Profile{DryRun: true, PredictableOnly: true})
 	})
 }
